@@ -599,7 +599,7 @@ def r1_key_normalisation(rep, src):
         ss = {norm(p_.outcome[1]) for p_ in ps_s}
         if not hs <= {'hash(%s)' % low, 'hash(self.lower())'}:
             ok, why = False, 'the hash is computed from %s, not from the lower-cased text' % sorted(hs)
-        elif not es <= {'%s == %s.lower()' % (low, other), '%s.lower() == %s' % (other, low), 'self.lower() == %s.lower()' % other}:
+        elif not all(_eq_of_lowered(p_, low, other, cname, lowered[0]) for p_ in ps_e):
             ok, why = False, 'equality is %s, not a comparison of the lower-cased texts' % sorted(es)
         elif not ss <= {orig}:
             ok, why = False, 'str() returns %s, not the original spelling' % sorted(ss)
@@ -607,6 +607,24 @@ def r1_key_normalisation(rep, src):
         rep.ok('C09.R1', UT + ':' + cname, 'hash/eq on the lowered text, str() the original', 'ok')
     else:
         rep.fail('C09.R1', UT + ':' + cname, 'hash/eq on the lowered text, str() the original', why)
+
+
+def _eq_of_lowered(path, low, other, cname, lowered_attr):
+    """a returning path of __eq__ compares the lower-cased text of this string with the lower-cased text of the other one: `other.lower()`,
+    or -- on a path that has established that the other object is of this very class -- the other object's own stored lower-cased text"""
+    e = path.outcome[1]
+    if isinstance(e, ast.Constant) and e.value is False:
+        return True          # (a path that answers False: not-a-string)
+    if not (isinstance(e, ast.Compare) and len(e.ops) == 1 and isinstance(e.ops[0], ast.Eq)):
+        return False
+    sides = {norm(e.left), norm(e.comparators[0])}
+    mine = {low, 'self.lower()'}
+    theirs = {'%s.lower()' % other}
+    same_class = any(pol and norm(t) in ('type(%s) is %s' % (other, cname), 'isinstance(%s, %s)' % (other, cname), 'type(%s) is type(self)' % other,
+                                         'isinstance(%s, type(self))' % other, '%s.__class__ is %s' % (other, cname)) for t, pol in path.conds)
+    if same_class:
+        theirs = theirs | {'%s.%s' % (other, lowered_attr)}
+    return len(sides) == 2 and bool(sides & mine) and bool(sides & theirs)
 
 
 def r5_copy_protocol(rep, src):
